@@ -168,6 +168,26 @@ class Opaque:
         return "<%s>" % self.desc
 
 
+class Closure:
+    __slots__ = ("path", "captures")
+
+    def __init__(self, path, captures):
+        self.path, self.captures = path, list(captures)
+
+    def __repr__(self):
+        return "closure<%s>" % self.path.rsplit("::", 2)[-1]
+
+
+class FnItem:
+    __slots__ = ("path", "full")
+
+    def __init__(self, path, full):
+        self.path, self.full = path, full
+
+    def __repr__(self):
+        return "fn<%s>" % self.path
+
+
 class Outcome:
     def __init__(self, sigma, constraints, excluded, value):
         self.sigma = dict(sigma)
@@ -316,9 +336,106 @@ def concrete_cmp(op, a, b):
 
 
 # ----------------------------------------------------------------------------------------
+# models of std Result/Option plumbing (exact on the abstract values; trusted table)
+# ----------------------------------------------------------------------------------------
+def _is(v, adt, variant):
+    return isinstance(v, Enum) and v.adt.endswith(adt) and v.variant == variant
+
+
+def _result(variant, payload):
+    return Enum("std::result::Result", variant, {"0": payload})
+
+
+def _option(variant, payload=None):
+    return Enum("std::option::Option", variant, {"0": payload} if variant == "Some" else {})
+
+
+def _map_err(it, fn, args, dty, sg, cons, excl, depth):
+    r, f = args
+    if _is(r, "Result", "Ok"):
+        return [(sg, cons, excl, r)]
+    if _is(r, "Result", "Err"):
+        return [(s, c, x, _result("Err", v)) for (s, c, x, v) in it.apply(f, [r.fields["0"]], sg, cons, excl, depth)]
+    raise LeaveDomain("map_err on %r" % (r,))
+
+
+def _map(it, fn, args, dty, sg, cons, excl, depth):
+    r, f = args
+    if _is(r, "Result", "Err"):
+        return [(sg, cons, excl, r)]
+    if _is(r, "Result", "Ok"):
+        return [(s, c, x, _result("Ok", v)) for (s, c, x, v) in it.apply(f, [r.fields["0"]], sg, cons, excl, depth)]
+    raise LeaveDomain("map on %r" % (r,))
+
+
+def _and_then(it, fn, args, dty, sg, cons, excl, depth):
+    r, f = args
+    if _is(r, "Result", "Err"):
+        return [(sg, cons, excl, r)]
+    if _is(r, "Result", "Ok"):
+        return it.apply(f, [r.fields["0"]], sg, cons, excl, depth)
+    raise LeaveDomain("and_then on %r" % (r,))
+
+
+def _branch(it, fn, args, dty, sg, cons, excl, depth):
+    (r,) = args
+    if _is(r, "Result", "Ok"):
+        return [(sg, cons, excl, Enum("std::ops::ControlFlow", "Continue", {"0": r.fields["0"]}))]
+    if _is(r, "Result", "Err"):
+        return [(sg, cons, excl, Enum("std::ops::ControlFlow", "Break", {"0": _result("Err", r.fields["0"])}))]
+    if _is(r, "Option", "Some"):
+        return [(sg, cons, excl, Enum("std::ops::ControlFlow", "Continue", {"0": r.fields["0"]}))]
+    if _is(r, "Option", "None"):
+        return [(sg, cons, excl, Enum("std::ops::ControlFlow", "Break", {"0": _option("None")}))]
+    raise LeaveDomain("? on %r" % (r,))
+
+
+def _from_residual(it, fn, args, dty, sg, cons, excl, depth):
+    (r,) = args
+    if _is(r, "Result", "Err"):
+        # error conversion through From: identity when the types agree, opaque wrapper otherwise
+        gargs = fn.get("gargs", [])
+        e = r.fields["0"]
+        return [(sg, cons, excl, _result("Err", Enum("<From>", "from", {"0": e}) if _needs_conv(gargs) else e))]
+    if _is(r, "Option", "None"):
+        return [(sg, cons, excl, _option("None"))]
+    raise LeaveDomain("from_residual on %r" % (r,))
+
+
+def _needs_conv(gargs):
+    # gargs = [Result<T, F>, Result<Infallible, E>]: conversion is the identity iff F == E
+    if len(gargs) != 2:
+        return True
+    m1 = re.match(r"^std::result::Result<.*, (.*)>$", gargs[0])
+    m2 = re.match(r"^std::result::Result<std::convert::Infallible, (.*)>$", gargs[1])
+    return not (m1 and m2 and m1.group(1) == m2.group(1))
+
+
+def _call_once(it, fn, args, dty, sg, cons, excl, depth):
+    f = args[0]
+    tup = args[1]
+    return it.apply(f, tup.items if isinstance(tup, Tup) else [tup], sg, cons, excl, depth)
+
+
+PLUMBING = {
+    "std::result::Result::<T, E>::map_err": _map_err,
+    "std::result::Result::<T, E>::map": _map,
+    "std::result::Result::<T, E>::and_then": _and_then,
+    "std::ops::Try::branch": _branch,
+    "std::ops::FromResidual::from_residual": _from_residual,
+    "std::ops::FnOnce::call_once": _call_once,
+    "std::ops::FnMut::call_mut": _call_once,
+    "std::ops::Fn::call": _call_once,
+}
+
+
+# ----------------------------------------------------------------------------------------
 class Interp:
-    def __init__(self, facts, inline=None, max_paths=4096):
+    def __init__(self, facts, inline=None, max_paths=4096, externs=None):
         self.facts = facts
+        self.externs = dict(PLUMBING)
+        if externs:
+            self.externs.update(externs)
         self.inline = inline        # predicate(Body) -> bool; None = every local body
         self.max_paths = max_paths
         self.paths = 0
@@ -359,6 +476,8 @@ class Interp:
             if k == "*":
                 if isinstance(v, Ref):
                     v = v.v
+                elif isinstance(v, Opaque):
+                    v = Opaque("*" + v.desc)
                 else:
                     raise LeaveDomain("deref of non-reference")
             elif k.startswith("as "):
@@ -386,6 +505,8 @@ class Interp:
         if pl is not None:
             return self.read_place(body, env, pl, sg)
         k = op["k"]
+        if "fn" in k:
+            return FnItem(k["fn"]["path"], k["fn"]["full"])
         it = int_ty(k["ty"])
         if it and "bits" in k:
             return BV.const(it[0], it[1], int(k["bits"]))
@@ -405,7 +526,8 @@ class Interp:
         a = self.adt_info(v.adt)
         if a is None:
             # std enums we know
-            std = {"std::result::Result": {"Ok": 0, "Err": 1}, "std::option::Option": {"None": 0, "Some": 1}}
+            std = {"std::result::Result": {"Ok": 0, "Err": 1}, "std::option::Option": {"None": 0, "Some": 1},
+                   "std::ops::ControlFlow": {"Continue": 0, "Break": 1}}
             if v.adt in std:
                 return std[v.adt][v.variant]
             raise LeaveDomain("unknown adt " + v.adt)
@@ -499,6 +621,8 @@ class Interp:
                 return [(sg, Tup(ops))]
             if rv["ak"] == "adt":
                 return [(sg, Enum(rv["adt"], rv["variant"], dict(zip(rv["fields"], ops))))]
+            if rv["ak"] == "closure":
+                return [(sg, Closure(rv["closure"], ops))]
             raise LeaveDomain("aggregate " + rv["ak"])
         raise LeaveDomain("rvalue " + r)
 
@@ -519,6 +643,12 @@ class Interp:
         decl = fn["path"]
         r = fn.get("r") or {}
         rpath = r.get("path")
+        for key in (decl, rpath):
+            if key and key in self.externs:
+                dty = body.local_ty(t["dest"]["l"])
+                res = self.externs[key](self, fn, args, dty, sg, cons, excl, depth)
+                if res is not None:
+                    return res
         # integer conversions
         if decl in ("std::convert::Into::into", "std::convert::From::from") and len(args) == 1 and isinstance(args[0], BV):
             dty = body.local_ty(t["dest"]["l"])
@@ -546,6 +676,31 @@ class Interp:
         if decl in ("std::clone::Clone::clone",) and len(args) == 1 and isinstance(args[0], Ref):
             return [(sg, cons, excl, args[0].v)]
         raise LeaveDomain("call to %s is outside the domain" % fn["full"])
+
+    def apply(self, f, args, sg, cons, excl, depth):
+        """Call a closure / fn-item value. -> list of (sigma, cons, excl, value)"""
+        if isinstance(f, Ref):
+            f = f.v
+        if isinstance(f, Closure):
+            b = self.facts.bodies.get(f.path)
+            if b is None:
+                raise LeaveDomain("closure body %s not found" % f.path)
+            self.inlined.add(b.path)
+            outs = self.evaluate(b, [f] + list(args), sg, cons, excl, depth + 1)
+            return [(o.sigma, o.constraints, o.excluded, o.value) for o in outs]
+        if isinstance(f, FnItem):
+            b = self.facts.bodies.get(f.path)
+            if b is not None:
+                self.inlined.add(b.path)
+                outs = self.evaluate(b, list(args), sg, cons, excl, depth + 1)
+                return [(o.sigma, o.constraints, o.excluded, o.value) for o in outs]
+            # tuple-struct / variant constructor used as a function
+            for ap, a in self.facts.adts.items():
+                if ap == f.path and a["kind"] == "struct":
+                    names = [fl["name"] for fl in a["variants"][0]["fields"]]
+                    return [(sg, cons, excl, Enum(ap, a["variants"][0]["name"], dict(zip(names, args))))]
+            raise LeaveDomain("function value %s has no local body" % f.path)
+        raise LeaveDomain("call of %r" % (f,))
 
     def step(self, body, bb, env, sg, cons, excl, depth):
         """Execute one block. Yields (next_bb, env, sigma, cons, excl, retval_or_None)."""
